@@ -49,7 +49,7 @@ def main(tier, replay=None):
     chk = Check("C01", tier)
     build_harness(["sem_run"])
     quick = tier == "quick"
-    n = 240 if quick else 3000
+    n = 240 if quick else 10000
     progs, files = generate(n, 12, 3 if quick else 4, "c01")
     res, expected = reference_results(progs, "c01")
     chk.add_tlc(res)
